@@ -369,6 +369,40 @@ def run_mux(term, items, bounds=False, prelude=None, share=False, two_stores=Non
     return {'chunks': chunks, 'bounds': log, 'dead': dead, 'raised': raised}
 
 
+def run_sources(pipes, sched):
+    """`with_memory_store(sources=[...])`: several hot mux sources sharing one store.  sched = list of steps ['sub', k] (subscribe
+    output k), ['push', k, v], ['done', k]; returns one chunk of outputs [{'o': k, 'i': v}] per step."""
+    subjects = [Subject() for _ in pipes]
+    outs = rs.state.with_memory_store(sources=[sj.pipe(rs.ops.mux_observable()) for sj in subjects])
+    cur = []
+    chunks = []
+    raised = None
+
+    def rec(k):
+        return dict(on_next=lambda x: cur.append({'o': k, 'i': enc(x)}), on_error=lambda e: cur.append({'o': k, 'x': type(e).__name__}),
+                    on_completed=lambda: None)
+
+    for step in sched:
+        try:
+            if step[0] == 'sub':
+                k = step[1]
+                b = Builder()
+                outs[k].pipe(*(b.pipe(pipes[k]) + [rs.ops.demux_observable()])).subscribe(**rec(k))
+            elif step[0] == 'push':
+                subjects[step[1]].on_next(dec(step[2]))
+            else:
+                subjects[step[1]].on_completed()
+        except Exception as e:
+            raised = type(e).__name__
+            chunks.append(list(cur))
+            break
+        chunks.append(list(cur))
+        del cur[:]
+    while len(chunks) < len(sched):
+        chunks.append([])
+    return {'chunks': chunks, 'raised': raised}
+
+
 def run_plain_tramp(term, items):
     """the same operators on an ordinary observable whose source pushes ALL items from inside one action of the current-thread
     scheduler (`rx.from_`, as every file reader of rxsci does): chunks [subscription, item 0.., completion] cut by a tap placed
